@@ -81,7 +81,7 @@ func init() {
 		ID: "C05",
 		Profile: &Profile{Name: "cache", W: with(baseWeights(), "filterNew", 8, "filterReg", 12, "query", 20, "removeEntity", 10, "removeEntities", 5, "setRel", 10, "shrink", 4, "reset", 1,
 			"qOpen", 6, "qNext", 8, "qClose", 3, "removeBatch", 4, "addBatch", 4, "batchCall", 4),
-			MaxEnts: 30, MinOps: 10, MaxOps: 120, RelBias: 60, OpenQ: true, MaxOpenQ: 4, Caps: []int{1, 1, 2, 3, 4, 8}},
+			MaxEnts: 30, MinOps: 10, MaxOps: 120, RelBias: 60, FixedRelBias: 60, OpenQ: true, MaxOpenQ: 4, Caps: []int{1, 1, 2, 3, 4, 8}},
 		Policies: []Policy{{}},
 		Opt:      Options{DeepEvery: 10},
 		Rule: genNote + "filters are registered/unregistered at drawn points (also while queries are open); every query of a registered filter is repeated on a never-registered twin with the identical spec " +
